@@ -26,6 +26,11 @@ CHECKS = {
           "Corpora of 30-2500 short documents over a 15-word vocabulary (posting lists spanning many blocks) in 1-3 segments with deletions and four (k1,b) settings; 12 scored query trees per corpus (terms, bool, dis_max, boosts incl. 0, multi_match, expansions, function_score, script_score, rank_feature, constant_score, phrases) with limit 1..50, optional filter, wand or bmw and block size 1..300. The pruned response must equal the exhaustive one (length, position-wise and per-id scores within 1e-5 relative, membership differing only among ties with the k-th score) and its total_hits_estimate must not exceed the exhaustive one.",
           "Trusted: the exhaustive bm25 strategy as the reference (C10 checks it against an independent BM25 model). Float tolerance 1e-5 relative.",
           "DESIGN.md §5 C09"),
+  "C10": ("exploration",
+          "property-based testing against a reference BM25/score-combination model and documented sort keys computed from the raw documents",
+          "Tie-heavy corpora (missing and multi-valued sort fields, 1-4 segments, four (k1,b) settings), scored query trees (boosts, dis_max + tie_breaker, multi_match, prefix, constant_score, function_score with weight/field_value_factor/decay and all score/boost modes, rank_feature, script_score), filters and sort plans of 0-3 keys: (a) hits must be sorted by the documented keys (min for asc, max for desc, missing last, returned scores for _score) with ties by segment then document order; (b) on deletion-free corpora every score must equal the reference BM25 combination within 1e-5 relative.",
+          "Trusted: harness/src/smodel.rs (BM25 formula from the README/bm25.rs, own tokenizer for the default analyzer, own script evaluator) and qmodel.rs for sub-query matching; the model's segment/ordinal assumption is cross-checked against IndexReader.segments[i].doc_id(ord).",
+          "DESIGN.md §5 C10"),
   "C11": ("exploration",
           "property-based testing: cursor walk vs single covering request (metamorphic) plus cursor-misuse scenarios",
           "Tie-heavy corpora over 1-4 segments with deletions, queries, filters, sort plans of 0-3 keys, page sizes 1..7 and all three execution strategies: the concatenated pages must equal the single covering request (ids, order, scores), without duplicates, with full pages and no cursor on the last page; total_hits_estimate never exceeds the true count and is exact when execution is exhaustive. The first page's cursor is then replayed after an add+commit, a compaction, a delete-only commit and against a different sort plan and must be rejected (leniently judged after a delete-only commit).",
